@@ -36,6 +36,15 @@ def rsa_artifact(rng, kind, pool=None):
     p, _ = rsagen.patterned_prime(rng, 512, rng.choice([3, 8, 16, 31, 64]))
     q = rsagen.rand_prime_top2(rng, 512)
     n = p * q
+  elif kind == 'word-large':
+    # only the largest pattern size that fits the modulus factors these (low
+    # deviation of 56..80 bits): sensitive to per-key handling of size lists
+    p, _ = rsagen.patterned_prime(rng, 1024, 127,
+                                  dev_bits=rng.choice([56, 64, 72, 80]))
+    q = rsagen.rand_prime_top2(rng, 1024)
+    n = p * q
+  elif kind == 'tiny':
+    n, p, q = rsagen.healthy(rng, rng.choice([256, 512, 768]))
   elif kind == 'swap':
     p, _ = rsagen.patterned_prime(rng, 512, rng.choice([3, 5, 7]), swap=16)
     q = rsagen.rand_prime_top2(rng, 512)
